@@ -11,6 +11,18 @@
 
 size_t g_j;                 /* second tracked slot index (value bookkeeping: harnesses tie it to g_k +- shift) */
 
+/* Type traits of the element type.  `std::is_trivially_copyable<T>::value` and friends are rewritten to C02_T_TRIVIAL; a unit
+ * runs with C02_T_TRIVIAL=1 to verify code paths taken for "plain data" element types.  A trivially copyable T need not have
+ * bytewise equality (double: 0.0 == -0.0, NaN != NaN; a POD with a user-defined operator==): with C02_T_TRIVIAL set the
+ * element's operator== ignores value bit 0, so a fast path that replaces T's == by a byte comparison is a visible difference. */
+#ifndef C02_T_TRIVIAL
+#define C02_T_TRIVIAL 0
+#endif
+#define C02_EQ_MASK (C02_T_TRIVIAL ? 0x3E : 0x3F)
+#define C02_VEQ(a, b) ((((a) ^ (b)) & C02_EQ_MASK) == 0)                 /* T::operator== on two element values */
+#define C02_ELEM_EQ(p, q) C02_VEQ(ELEM_value(p), ELEM_value(q))          /* *p == *q (reads both elements: both must be LIVE) */
+const ELEM *g_eq_it;        /* ghost: where an element-wise comparison (operator== loop, std::equal, memcmp) found a difference */
+
 /* The three shifting algorithms  std::move_backward / std::move / std::copy  on a range inside one block.
  * ISO ([alg.move], [alg.copy]): for n = 0..N-1 (move_backward: n = 1..N from the back), in this order,
  *      *(d_first + n) = std::move(*(first + n))      resp.  = *(first + n).
@@ -88,18 +100,48 @@ static inline void c02_shift_sparse(ELEM *first, ELEM *last, ELEM *d_lo, size_t 
     if (exk) base[g_k] = ck;
     if (exj) base[g_j] = cj;
 }
+/* source range and destination in DIFFERENT blocks (e.g. std::copy(other.begin(), other.end(), m_data)): no overlap question; the
+ * tracked slot of the destination block is assigned once from source slot g_k - Dlo + F, the tracked slot of the source block is
+ * read (copy) / moved from (move) once; the destination block (for move also the source block) is otherwise havocked */
+static inline void c02_shift_cross(ELEM *first, ELEM *last, ELEM *d_lo, size_t N, int is_move)
+{
+    ELEM *sb = C02_BASE(first), *db = C02_BASE(d_lo);
+    size_t F = C02_IDX(first), L = C02_IDX(last), Dlo = C02_IDX(d_lo), SNS = C02_NSLOTS(first), DNS = C02_NSLOTS(d_lo);
+    __CPROVER_assert(L <= SNS && Dlo + N <= DNS, "bounds: move / copy: source and destination range inside their blocks");
+    if (!(L <= SNS && Dlo + N <= DNS)) __CPROVER_assume(0);
+    if (N == 0) return;
+    _Bool dk = g_k < DNS, sk = g_k < SNS;
+    _Bool dA = dk && g_k >= Dlo && g_k - Dlo < N, sS = sk && g_k >= F && g_k < L;
+    ELEM cd, cs, src, scratch;
+    cd.g_bits = dk ? db[g_k].g_bits : 0; cs.g_bits = sk ? sb[g_k].g_bits : 0;
+    src.g_bits = dA ? sb[g_k - Dlo + F].g_bits : 0;
+    if (sS) {                                   /* event S on the source block's tracked slot */
+        g_solo2 = &cs; ELEM_SET(&scratch, ELEM_LIVE, 0);
+        if (is_move) ELEM_move_assign(&scratch, &cs); else ELEM_copy_assign(&scratch, &cs);
+    }
+    if (dA) {                                   /* event A on the destination block's tracked slot */
+        g_solo2 = C02_WAIVED(&db[g_k]) ? 0 : &cd; ELEM_SET(&scratch, ELEM_LIVE, ELEM_V(&src));
+        if (is_move) ELEM_move_assign(&cd, &scratch); else ELEM_copy_assign(&cd, &scratch);
+    }
+    g_solo2 = 0;
+    __CPROVER_havoc_object(db);
+    if (dk) db[g_k] = cd;
+    if (is_move) { __CPROVER_havoc_object(sb); if (sk) sb[g_k] = cs; }
+}
 /* common part: valid range, then the loop (native replay) or the sparse effect (cbmc) */
 static inline void c02_shift(ELEM *first, ELEM *last, ELEM *d_lo, int is_move, int backward, const char *unused)
 {
     (void)unused;
-    __CPROVER_assert(__CPROVER_same_object(first, last) && __CPROVER_same_object(first, d_lo), "spec: std algorithm stub models ranges inside one block");
-    __CPROVER_assert(first <= last, "std: move / move_backward / copy: [first, last) is a valid range");
-    if (!(first <= last)) __CPROVER_assume(0);
-    size_t N = (size_t)(last - first);
+    __CPROVER_assert(__CPROVER_same_object(first, last), "std: move / move_backward / copy: [first, last) is a range of one block");
+    __CPROVER_assert(c02_ptr_diff(last, first) >= 0, "std: move / move_backward / copy: [first, last) is a valid range");
+    if (!(c02_ptr_diff(last, first) >= 0)) __CPROVER_assume(0);
+    size_t N = (size_t)c02_ptr_diff(last, first);
 #ifdef C02_ALGO_LOOPS
     c02_shift_loop(first, d_lo, N, is_move, backward);
 #else
-    c02_shift_sparse(first, last, d_lo, N, is_move, backward);
+    if (N == 0) return;
+    if (__CPROVER_same_object(first, d_lo)) c02_shift_sparse(first, last, d_lo, N, is_move, backward);
+    else c02_shift_cross(first, last, d_lo, N, is_move);
 #endif
 }
 /* std::move_backward(first, last, d_last): for n = 1..N  *(d_last - n) = std::move(*(last - n)); returns d_last - N */
@@ -119,6 +161,61 @@ static inline ELEM *c02_std_copy(const ELEM *first, const ELEM *last, ELEM *d_fi
 {
     c02_shift((ELEM *)first, (ELEM *)last, d_first, 0, 0, "copy");
     return d_first + (last - first);
+}
+
+/* std::copy_n(first, n, d_first) == std::copy(first, first + n, d_first) */
+static inline ELEM *c02_std_copy_n(const ELEM *first, size_t n, ELEM *d_first)
+{
+    c02_shift((ELEM *)first, (ELEM *)first + n, d_first, 0, 0, "copy_n");
+    return d_first + n;
+}
+/* element-wise comparisons.  Result r and, for "different", a witness position g_eq_it:
+ *   r == equal      => the elements at the tracked index are equal (arbitrary index => all)
+ *   r == different  => the elements at g_eq_it differ
+ * (libstdc++ / libc trusted; natively the loops run as written).  std::equal uses T::operator== and READS the elements (lifetime
+ * protocol); memcmp compares the object representation = the full value (the ghost lifetime bits are not part of the value). */
+static inline bool c02_std_equal(const ELEM *f1, const ELEM *l1, const ELEM *f2)
+{
+    size_t n = (size_t)c02_ptr_diff(l1, f1);
+#ifdef REPLAY
+    for (size_t i = 0; i < n; i++) if (!C02_ELEM_EQ(&f1[i], &f2[i])) { g_eq_it = &f1[i]; return false; }
+    return true;
+#else
+    size_t F1 = C02_IDX(f1), F2 = C02_IDX(f2);
+    __CPROVER_assert(n == 0 || (F1 + n <= C02_NSLOTS(f1) && F2 + n <= C02_NSLOTS(f2)), "bounds: std::equal: both ranges inside their blocks");
+    if (!(n == 0 || (F1 + n <= C02_NSLOTS(f1) && F2 + n <= C02_NSLOTS(f2)))) __CPROVER_assume(0);
+    _Bool r = nondet__Bool();
+    size_t d = nondet_size_t();
+    if (r) {
+        if (g_k >= F1 && g_k - F1 < n) __CPROVER_assume(C02_ELEM_EQ(&C02_BASE(f1)[g_k], &f2[g_k - F1]));
+        else if (g_k >= F2 && g_k - F2 < n) __CPROVER_assume(C02_ELEM_EQ(&f1[g_k - F2], &C02_BASE(f2)[g_k]));
+    } else {
+        __CPROVER_assume(d < n && !C02_ELEM_EQ(&f1[d], &f2[d]));
+        g_eq_it = &f1[d];
+    }
+    return r;
+#endif
+}
+static inline int c02_memcmp(const void *a, const void *b, size_t nbytes)
+{
+    const ELEM *p = (const ELEM *)a, *q = (const ELEM *)b;
+    size_t n = nbytes / sizeof(ELEM);
+#ifdef REPLAY
+    for (size_t i = 0; i < n; i++) if (ELEM_V(&p[i]) != ELEM_V(&q[i])) { g_eq_it = &p[i]; return ELEM_V(&p[i]) < ELEM_V(&q[i]) ? -1 : 1; }
+    return 0;
+#else
+    __CPROVER_assert(n == 0 || (C02_IDX(p) + n <= C02_NSLOTS(p) && C02_IDX(q) + n <= C02_NSLOTS(q)), "bounds: memcmp: both ranges inside their blocks");
+    if (!(n == 0 || (C02_IDX(p) + n <= C02_NSLOTS(p) && C02_IDX(q) + n <= C02_NSLOTS(q)))) __CPROVER_assume(0);
+    int r = nondet_int();
+    size_t d = nondet_size_t();
+    if (r == 0) {
+        if (g_k >= C02_IDX(p) && g_k - C02_IDX(p) < n) __CPROVER_assume(ELEM_V(&C02_BASE(p)[g_k]) == ELEM_V(&q[g_k - C02_IDX(p)]));
+    } else {
+        __CPROVER_assume(d < n && ELEM_V(&p[d]) != ELEM_V(&q[d]));
+        g_eq_it = &p[d];
+    }
+    return r;
+#endif
 }
 
 /* std::distance / std::prev on random access iterators */
